@@ -148,6 +148,21 @@ fn pair_case<T: Elem>(c: &mut Ctx, rng: &mut Rng) {
     expect_eq(&format!("{} intersection (fold)", what), &ah.intersection(bh).fold(Vec::new(), |mut v, x| { v.push(x.id()); v.sort(); v }), &int);
     expect_eq(&format!("{} difference (fold)", what), &ah.difference(bh).fold(Vec::new(), |mut v, x| { v.push(x.id()); v.sort(); v }), &dif);
     expect_eq(&format!("{} symmetric_difference (for_each)", what), &fold_ids(&mut ah.symmetric_difference(bh)), &sym);
+    // the same object on both sides (aliased operands): A op A
+    {
+        let e: BTreeSet<u32> = BTreeSet::new();
+        expect_eq(&format!("{} A union A", what), &walk("union(self)", ah.union(ah)), &sa);
+        expect_eq(&format!("{} A intersection A", what), &walk("intersection(self)", ah.intersection(ah)), &sa);
+        expect_eq(&format!("{} A difference A", what), &walk("difference(self)", ah.difference(ah)), &e);
+        expect_eq(&format!("{} A symmetric_difference A", what), &walk("symmetric_difference(self)", ah.symmetric_difference(ah)), &e);
+        crate::check!(ah.is_subset(ah) && ah.is_superset(ah), "{}: A is not a subset/superset of itself", what);
+        crate::check!(ah.is_disjoint(ah) == sa.is_empty(), "{}: A.is_disjoint(A) = {} for |A| = {}", what, ah.is_disjoint(ah), sa.len());
+        crate::check!(bh.is_disjoint(bh) == sb.is_empty(), "{}: B.is_disjoint(B) = {} for |B| = {}", what, bh.is_disjoint(bh), sb.len());
+        #[allow(clippy::eq_op)]
+        {
+            crate::check!(ah == ah, "{}: A != A", what);
+        }
+    }
     // predicates
     crate::check!(ah.is_subset(bh) == sa.is_subset(&sb), "{}: is_subset = {}", what, ah.is_subset(bh));
     crate::check!(ah.is_superset(bh) == sa.is_superset(&sb), "{}: is_superset = {}", what, ah.is_superset(bh));
